@@ -202,7 +202,7 @@ func c08r2(c *RC) {
 			}
 		}
 		var bad []string
-		if f["InvIndex"] != "c.inv.Index" {
+		if f["InvIndex"] != recvOf(fn)+".inv.Index" {
 			bad = append(bad, "InvIndex="+f["InvIndex"])
 		}
 		// Op must be a variable assigned from c.namer.New(...)
@@ -262,8 +262,8 @@ func c08r2(c *RC) {
 	// the ops list is filled from inv index and slices[i].Name().Op in pipeline order
 	okOps := false
 	ast.Inspect(fn.Body, func(nd ast.Node) bool {
-		if a, ok := nd.(*ast.AssignStmt); ok && len(a.Lhs) == 1 && expr(a.Lhs[0]) == "ops" && len(a.Rhs) == 1 {
-			if strings.Contains(expr(a.Rhs[0]), "Name().Op") {
+		if a, ok := nd.(*ast.AssignStmt); ok && len(a.Lhs) == 1 && len(a.Rhs) == 1 {
+			if k, ok := a.Rhs[0].(*ast.CallExpr); ok && expr(k.Fun) == "append" && len(k.Args) == 2 && expr(k.Args[0]) == expr(a.Lhs[0]) && strings.HasSuffix(expr(k.Args[1]), ".Name().Op") {
 				okOps = true
 			}
 		}
@@ -287,8 +287,16 @@ func c08r3(c *RC) {
 	fl := pr.Flow(fn)
 	// the advance: slice = dep.Slice
 	var adv *ast.AssignStmt
+	sliceP := "slice"
+	if fn.Type.Params != nil && len(fn.Type.Params.List) > 0 && len(fn.Type.Params.List[0].Names) > 0 {
+		sliceP = fn.Type.Params.List[0].Names[0].Name
+	}
+	slicesR := "slices"
+	if fn.Type.Results != nil && len(fn.Type.Results.List) > 0 && len(fn.Type.Results.List[0].Names) > 0 {
+		slicesR = fn.Type.Results.List[0].Names[0].Name
+	}
 	inspectNoLit(fn.Body, func(n ast.Node) bool {
-		if a, ok := n.(*ast.AssignStmt); ok && len(a.Lhs) == 1 && a.Tok == token.ASSIGN && expr(a.Lhs[0]) == "slice" && strings.HasSuffix(expr(a.Rhs[0]), ".Slice") {
+		if a, ok := n.(*ast.AssignStmt); ok && len(a.Lhs) == 1 && a.Tok == token.ASSIGN && expr(a.Lhs[0]) == sliceP && strings.HasSuffix(expr(a.Rhs[0]), ".Slice") {
 			adv = a
 		}
 		return true
@@ -325,7 +333,7 @@ func c08r3(c *RC) {
 			return "R"
 		case fl.Key(cond) == pragOK && pragOK != "" && !outcome:
 			return "M" // not a Pragma at all: nothing to materialize
-		case (t == "slice.NumDep()!=1" && !outcome) || (t == "slice.NumDep()==1" && outcome):
+		case (t == sliceP+".NumDep()!=1" && !outcome) || (t == sliceP+".NumDep()==1" && outcome):
 			return "N"
 		case strings.HasSuffix(t, ".Shuffle") && !strings.Contains(t, "!") && !outcome:
 			return "S"
@@ -367,7 +375,7 @@ func c08r3(c *RC) {
 	okOrder := true
 	var app *ast.AssignStmt
 	inspectNoLit(fn.Body, func(n ast.Node) bool {
-		if a, ok := n.(*ast.AssignStmt); ok && len(a.Lhs) == 1 && expr(a.Lhs[0]) == "slices" && strings.HasPrefix(expr(a.Rhs[0]), "append(slices, slice)") {
+		if a, ok := n.(*ast.AssignStmt); ok && len(a.Lhs) == 1 && expr(a.Lhs[0]) == slicesR && strings.HasPrefix(expr(a.Rhs[0]), "append("+slicesR+", "+sliceP+")") {
 			app = a
 		}
 		return true
@@ -559,9 +567,11 @@ func c08r7(c *RC) {
 		switch a := n.(type) {
 		case *ast.AssignStmt:
 			if len(a.Lhs) == 1 {
-				if ix, ok := a.Lhs[0].(*ast.IndexExpr); ok && expr(ix.X) == "named" {
-					if strings.HasSuffix(expr(ix.Index), ".Name") && expr(ix.Index) == expr(a.Rhs[0])+".Name" {
-						byName = true
+				if ix, ok := a.Lhs[0].(*ast.IndexExpr); ok {
+					if tv := lit.Pkg.Info.Types[ix.X]; tv.Type != nil && typeString(tv.Type) == "map[exec.TaskName]*exec.Task" {
+						if strings.HasSuffix(expr(ix.Index), ".Name") && expr(ix.Index) == expr(a.Rhs[0])+".Name" {
+							byName = true
+						}
 					}
 				}
 			}
@@ -577,7 +587,7 @@ func c08r7(c *RC) {
 	// compile is called with the decoded invocation and the worker's machine-combiner flag
 	okArgs := false
 	for _, k := range callsIn(lit.Body) {
-		if lit.Pkg.CalleeName(k) == "exec.compile" && len(k.Args) == 3 && expr(k.Args[0]) == "inv" && strings.HasSuffix(expr(k.Args[2]), ".MachineCombiners") {
+		if lit.Pkg.CalleeName(k) == "exec.compile" && len(k.Args) == 3 && expr(k.Args[0]) == c08decodedInv(w) && strings.HasSuffix(expr(k.Args[2]), ".MachineCombiners") {
 			okArgs = true
 		}
 	}
@@ -593,4 +603,19 @@ func c08r7(c *RC) {
 		})
 		c.Check(ok, st.QName()+"|worker-gets-session-machine-combiners", pr.Pos(st.Body.Pos()), "the worker service is not configured with the session's machine-combiner option: driver and workers compile different combine keys")
 	}
+}
+
+// c08decodedInv: the variable of worker.Compile into which the invocation is
+// gob-decoded.
+func c08decodedInv(w *Func) string {
+	name := "inv"
+	ast.Inspect(w.Body, func(n ast.Node) bool {
+		if k, ok := n.(*ast.CallExpr); ok && w.Pkg.CalleeName(k) == "encoding/gob.(*Decoder).Decode" && len(k.Args) == 1 {
+			if u, ok := k.Args[0].(*ast.UnaryExpr); ok {
+				name = expr(u.X)
+			}
+		}
+		return true
+	})
+	return name
 }
